@@ -74,7 +74,16 @@ def reachable_ordered(values, copies, k):
 
 
 def reachable_sorted_copies(values, copies, k):
-    return {tuple(sorted(s)) for s in reachable_ordered(values, copies, k)}
+    """Sorted sum vectors placing value i exactly copies[i] times (bins interchangeable)."""
+    states = {tuple([0] * k)}
+    for v, c in zip(values, copies):
+        pls = list(_placements(c, k))
+        nxt = set()
+        for s in states:
+            for p in pls:
+                nxt.add(tuple(sorted(s[i] + p[i] * v for i in range(k))))
+        states = nxt
+    return states
 
 
 def optimum(objective, vectors) -> float:
@@ -255,6 +264,8 @@ def self_check():
     # copies: 2 copies of x is the same as listing x twice
     if reachable_sorted_copies([5, 3], [2, 1], 2) != naive_reachable_sorted([5, 5, 3], 2):
         raise AssertionError("copies model wrong")
+    if {tuple(sorted(x)) for x in reachable_ordered([5, 3, 9], [2, 0, 1], 3)} != naive_reachable_sorted([5, 5, 9], 3):
+        raise AssertionError("ordered copies model wrong")
     if two_way_optimum([8, 7, 6, 5, 4], 1) != 0 or two_way_optimum([4, 1, 1, 1, 1], 1) != 2:
         raise AssertionError("two_way_optimum with bound wrong")
     if lpt_sums([4, 5, 6, 7, 8], 2) != [13, 17]:
